@@ -8,15 +8,18 @@ from .tourops import mval, F, node_ids, tour_nodes, names, mk_spec
 
 PROPERTY = 'C15'
 CRATES = ['rapid_time', 'model', 'solution']
-MIR = [('rapid_time', 'on'), ('model', 'on'), ('solution', 'on')]
+MIR = [('rapid_time', 'on'), ('model', 'on'), ('solution', 'on'), ('solver', 'on'), ('rapid_solve', 'on'), ('solver', 'off'), ('rapid_solve', 'off'), ('solution', 'off')]
+from . import C15opt
+from .C15opt import job_tr_objective, job_tr_config, job_seq_improve
 ASSUMPTIONS = ['tours are produced by the real Tour::new on symbolic trips/slots (maintenance counter, depots and the depot distance matrix are therefore terms over the instance attributes)',
                'every script starts from the transition of an empty vehicle set (Transition::new_fast(&[])) and applies real public operations only, so every pre-state has a native history',
-               'the accept-only-if-better rule of the transition optimisation lives in rapid_solve (registry crate, trusted)']
+               '"optimisation never worsens" is decomposed (C15opt.py): objective levels and indicators, solver configuration, and the improvers of rapid_solve (sequential Minimizer here, ParallelMinimizer in C08) executed from the registry crate\'s MIR with K symbolic candidates; the repeat-until-None loop of LocalSearchSolver::solve is read from the registry source, not executed',
+               'rayon parallel iterators are modelled as their sequential counterparts']
 BOUNDS = {'quick': '3 vehicles (service tour, maintenance tour, tour on the overflow depot) + 1 probe vehicle + 1 alternative tour, 2 real depots with symbolic locations; all scripts of 2 operations after the three initial add_vehicle_to_own_cycle, plus Transition::new_fast on 2-3 vehicles',
           'thorough': '4 vehicles; all scripts of 3 operations after the initial insertions; new_fast on up to 4 vehicles'}
-OUTSIDE = 'longer scripts, more vehicles; rapid_solve local search acceptance'
-REQUIRED_COVERS = {'quick': ['op:batch', 'op:move', 'op:remove', 'op:add_own', 'op:add_end', 'op:update', 'op:three_opt', 'empty cycle reused', 'negative counter'],
-                   'thorough': ['op:move', 'op:remove', 'op:add_own', 'op:add_end', 'op:update', 'op:three_opt', 'empty cycle reused', 'negative counter']}
+OUTSIDE = 'longer scripts, more vehicles; whole optimisation trajectories on real instances (only the step rule, the objective and the configuration are decided); TransitionNeighborhood::neighbors_of is not executed: its candidates are compositions of move_vehicle and replace_cycle, which the scripts cover'
+REQUIRED_COVERS = {'quick': ['sequential step accepted', 'sequential fixpoint', 'op:batch', 'op:move', 'op:remove', 'op:add_own', 'op:add_end', 'op:update', 'op:three_opt', 'empty cycle reused', 'negative counter'],
+                   'thorough': ['sequential step accepted', 'sequential fixpoint', 'op:move', 'op:remove', 'op:add_own', 'op:add_end', 'op:update', 'op:three_opt', 'empty cycle reused', 'negative counter']}
 
 # vehicle pool: (start depot, end depot, kind)
 POOL = {'quick': [('real0', 'real0', 'S'), ('real0', 'real1', 'M'), ('overflow', 'real0', 'S')],
@@ -122,6 +125,7 @@ def jobs(tier, seed):
         for kinds in itertools.product('SM', repeat=n):
             if sum(1 for k in kinds if k == 'M') > 2: continue
             js.append(dict(name='new_fast %s' % ''.join(kinds), func='job_new_fast', kwargs=dict(tier=tier, kinds=''.join(kinds))))
+    js += C15opt.jobs(tier)
     return js
 
 def check_state(J, ex, net, pc, tr, cur, label, mk):
@@ -272,6 +276,9 @@ def job_new_fast(name, tier, kinds):
 
 # ------------------------------------------------------------------ native confirmation
 def confirm(c):
+    if c.get('job_func') in ('job_tr_objective', 'job_tr_config', 'job_seq_improve'):
+        from ..harness import confirm_on_other_flavour
+        return confirm_on_other_flavour('mirsym.obligations.C15', c['job_func'], c.get('job_kwargs', {}), c['clause'])
     sc = c['scenario']; exp = c['expect']; out = []
     for prof in ('dev', 'release'):
         obs = replay.run(sc, prof)
